@@ -80,21 +80,21 @@ Definition run_body (p : list eff * bout) : RM nat :=
   (fst p, match snd p with BRet v => Ok v | BRaise e => Exc (UserExc e) end).
 
 Ltac await_cases :=
-  intros c m; unfold await_future, body_full, in_time, run_body, body_part, body_run;
+  intros c o1 o2 m; unfold await_future, body_full, in_time, run_body, body_part, body_run;
   intros; repeat match goal with H : _ = _ |- _ => rewrite H end; cbn [fn_cfg negb];
   repeat match goal with |- context [if ?b then _ else _] => destruct b end;
   cbn; try destruct (c_out c); reflexivity.
 
 (* the four awaitables run_task can build, by what the function is and whether the message has a timeout label *)
-Lemma await_coro : forall c m, c_async c = true -> m_tmo m = None ->
-  await_future (FutCoro (mkfunc c)) = run_body (body_part c m).
+Lemma await_coro : forall c o1 o2 m, c_async c = true -> m_tmo m = None ->
+  await_future (FutCoro (mkfunc c o1 o2)) = run_body (body_part c m).
 Proof. await_cases. Qed.
-Lemma await_exec : forall c m, c_async c = false -> m_tmo m = None ->
-  await_future (FutExec (mkfunc c)) = run_body (body_part c m).
+Lemma await_exec : forall c o1 o2 m, c_async c = false -> m_tmo m = None ->
+  await_future (FutExec (mkfunc c o1 o2)) = run_body (body_part c m).
 Proof. await_cases. Qed.
-Lemma await_wait_coro : forall c m t, c_async c = true -> m_tmo m = Some t ->
-  await_future (FutWaitFor (FutCoro (mkfunc c)) t) = run_body (body_part c m).
+Lemma await_wait_coro : forall c o1 o2 m t, c_async c = true -> m_tmo m = Some t ->
+  await_future (FutWaitFor (FutCoro (mkfunc c o1 o2)) t) = run_body (body_part c m).
 Proof. await_cases. Qed.
-Lemma await_wait_exec : forall c m t, c_async c = false -> m_tmo m = Some t ->
-  await_future (FutWaitFor (FutExec (mkfunc c)) t) = run_body (body_part c m).
+Lemma await_wait_exec : forall c o1 o2 m t, c_async c = false -> m_tmo m = Some t ->
+  await_future (FutWaitFor (FutExec (mkfunc c o1 o2)) t) = run_body (body_part c m).
 Proof. await_cases. Qed.
